@@ -55,6 +55,7 @@ class TlcResult:
             states = re.split(r"^State \d+: .*$", chunk, flags=re.M)
             last = states[-1] if len(states) > 1 else chunk
             last = re.sub(r"^Error: The behavior up to this point is:\s*$", "", last, flags=re.M)
+            last = last.strip().split("\n\n")[0]
             self.violations.append({"invariant": m.group(1), "state": last.strip(), "depth": max(1, len(states) - 1)})
         self.action_violations = re.findall(r"Error: Action property (\w+) is violated", stdout)
         self.other_errors: List[str] = []
